@@ -69,17 +69,18 @@ c.ensure('args_without_the_defaulted_tail', lambda x: z3.And(
 c.raises_only_listed = True
 register(c)
 
-c = Contract('config.py::_order_by_signature', ['C10'], kind='assumed')
+def _member(lst, s):
+  return z3.Exists([i_], z3.And(0 <= i_, i_ < lst.len, lst.arr[i_] == s))
+
+
+c = Contract('config.py::_order_by_signature', ['C10'])
 c.param('fn', KVal)
 c.param('arg_names', StrList)
 c.result = StrList
-c.ensure('same_names', lambda x: sym.forall([s_], z3.Exists(
-    [i_], z3.And(0 <= i_, i_ < x.result.len, x.result.arr[i_] == s_)) == z3.Exists(
-        [i_], z3.And(0 <= i_, i_ < x.a.arg_names.len, x.a.arg_names.arr[i_] == s_))))
+c.local_kinds = {'all_args': StrList, 'ordered': StrList}
+c.ensure('same_names', lambda x: sym.forall([s_], _member(x.result, s_) ==
+                                            _member(x.a.arg_names, s_)))
 c.raises_only_listed = True
-c.assumptions.append('_order_by_signature returns the given names, duplicate-free, in '
-                     'signature order then leftovers [assumed: filtering comprehensions; '
-                     'bounded: bC10 checks the reported order]')
 register(c)
 
 # ---- copy.deepcopy ------------------------------------------------------------------
